@@ -200,10 +200,11 @@ def sliceCopy (items : List Item) (A : NArr α) : Except Err (NArr α) :=
 def axisSel (axis : Nat) (shape : List Nat) (s : Sel) : List Sel :=
   (shape.take axis).map (fun n => Sel.take (List.range n)) ++ [s]
 
-/-- `a.take(index, axis)` with the axis dropped; out of range panics. -/
+/-- `a.take(index, axis)` with the axis dropped: element `idx` of the result is the element of
+`a` at `idx` with `index` inserted at position `axis`; out of range panics. -/
 def indexAxis (axis index : Nat) (A : NArr α) : Except Err (NArr α) :=
   if axis < A.rank ∧ index < A.shape.getD axis 0 then
-    .ok (gather (axisSel axis A.shape (Sel.pick index)) A)
+    .ok (ofFn (A.shape.eraseIdx axis) (fun idx => A.get (idx.insertIdx axis index)))
   else .error .panic
 
 /-- `a[.., start:stop, ..]` on one axis with in-range bounds; otherwise a panic. -/
